@@ -6,7 +6,10 @@
    KEY_MATERIAL change flag triggers reload_key_material); with FALSE the model exhibits the
    DESIGN section 8 hypothesis (stale signer map) as a counterexample. *)
 EXTENDS KKeys, Sequences
-CONSTANTS T, MaxKeys, Servers, ReloadOnCommit
+CONSTANTS T, MaxKeys, Servers, ReloadOnCommit,
+          MaxAge,          \* changelog window: revoked keys with an older status change id are trimmed on merge
+          StampOnRevoke    \* TRUE = revoke stamps the key with the revoking change id (the code);
+                           \* FALSE = the key keeps its previous status change id (seeded hypothesis)
 VARIABLES stored,   \* srv -> kid -> key      (the entry's KeyInternalData)
           mem,      \* srv -> in-memory object [all, active]
           now, toks, ever, nkeys
@@ -15,7 +18,7 @@ U == "es256"
 Kid(n) == "k" \o ToString(n)
 
 Init ==
-  /\ stored = [s \in Servers |-> (Kid(1) :> [u |-> U, st |-> "valid", vf |-> None])]
+  /\ stored = [s \in Servers |-> (Kid(1) :> [u |-> U, st |-> "valid", vf |-> None, sc |-> None])]
   /\ mem = [s \in Servers |-> [all |-> stored[s], active |-> (U :> (None :> Kid(1)))]]
   /\ now = 0 /\ toks = {} /\ ever = [s \in Servers |-> {}] /\ nkeys = 1
 
@@ -29,13 +32,13 @@ Commit(s, staged) ==
 
 \* new_active(vf): all[kid] = valid key, active[vf] = kid  (OVERWRITES an entry with the same vf)
 NewActive(o, kid, vf) ==
-  [all |-> (kid :> [u |-> U, st |-> "valid", vf |-> vf]) @@ o.all,
+  [all |-> (kid :> [u |-> U, st |-> "valid", vf |-> vf, sc |-> now]) @@ o.all,
    active |-> (U :> ((vf :> kid) @@ ActiveOf(o, U)))]
 \* revoke(kid): status revoked, active.remove(valid_from of that key)  (whatever kid sits there)
 RevokeIn(o, kid) ==
   LET vf == o.all[kid].vf
       a  == ActiveOf(o, U)
-  IN  [all |-> [o.all EXCEPT ![kid].st = "revoked"],
+  IN  [all |-> [o.all EXCEPT ![kid].st = "revoked", ![kid].sc = IF StampOnRevoke THEN now ELSE @],
        active |-> (U :> [v \in DOMAIN a \ {vf} |-> a[v]])]
 
 Rotate(s, at) ==
@@ -65,7 +68,7 @@ Reload(s) ==
 
 Replicate(from, to) ==
   /\ from # to
-  /\ LET st2 == Merge(stored[to], stored[from])
+  /\ LET st2 == Trim(Merge(stored[to], stored[from]), now, MaxAge)     \* repl_merge_valueset: merge, then trim
      IN  /\ stored' = [stored EXCEPT ![to] = st2]
          /\ \E o \in {x \in Loads(st2) : IsLoad(x)} : mem' = [mem EXCEPT ![to] = o]
          /\ ever' = [ever EXCEPT ![to] = ever[to] \cup RevokedIn(st2)]
